@@ -23,6 +23,7 @@ package merkleblock
 //@   ensures sameobj(m.matchedHashes, old(m.matchedHashes)) || fresh(m.matchedHashes)
 //@   ensures sameobj(m.matchedItems, old(m.matchedItems)) || fresh(m.matchedItems)
 //@   decreases int(height)
+//@   assert after HashMerkleBranches#1: (pos * 2 + 1 < (m.numTx + (u32(1) << (height - 1)) - 1) >> (height - 1)) && hash.eq($arg0, $arg1) ==> m.bad
 
 //@ func merkleblock.(*PartialBlock).ExtractMatches
 //@   requires len(m.bits) < 4294967288 && len(m.finalHashes) < 4294967296 && len(m.matchedHashes) == len(m.matchedItems)
